@@ -283,6 +283,10 @@ func (in *instr) callExpr(c *astutil.Cursor, ce *ast.CallExpr) {
 		ce.Fun = simrtSel("Sleep")
 	case in.isPkgSel(ce.Fun, "time", "AfterFunc"):
 		ce.Fun = simrtSel("AfterFunc")
+	case in.isPkgSel(ce.Fun, "time", "NewTimer"):
+		ce.Fun = simrtSel("NewTimer")
+	case in.isPkgSel(ce.Fun, "time", "After"):
+		ce.Fun = simrtSel("After")
 	case in.isPkgSel(ce.Fun, "math/rand", "Intn"):
 		ce.Fun = simrtSel("RandIntn")
 	case in.isPkgSel(ce.Fun, "math/rand", "Seed"):
@@ -293,6 +297,18 @@ func (in *instr) callExpr(c *astutil.Cursor, ce *ast.CallExpr) {
 		if se, ok := ce.Fun.(*ast.SelectorExpr); ok {
 			if id, ok := se.X.(*ast.Ident); ok && in.pkgOf(id) == "math/rand" {
 				in.fail(ce, "unsupported math/rand.%s", se.Sel.Name)
+			}
+			// (*time.Timer).Reset
+			if se.Sel.Name == "Reset" && len(ce.Args) == 1 {
+				if tv, ok := in.info.Types[se.X]; ok {
+					if p, ok := tv.Type.(*types.Pointer); ok {
+						if nt, ok := p.Elem().(*types.Named); ok && nt.Obj().Pkg() != nil && nt.Obj().Pkg().Path() == "time" && nt.Obj().Name() == "Timer" {
+							c.Replace(call(simrtSel("TimerReset"), se.X, ce.Args[0]))
+							in.changed = true
+							in.st.calls++
+						}
+					}
+				}
 			}
 			// (*sync.Map).Range
 			if se.Sel.Name == "Range" && len(ce.Args) == 1 {
